@@ -71,7 +71,7 @@ def tlc(module, cfg, workers=8, timeout=900, simulate=None, depth=None, env=None
     meta = os.path.join(WORK, "tlc", name + "_" + str(os.getpid()))
     shutil.rmtree(meta, ignore_errors=True)
     os.makedirs(meta, exist_ok=True)
-    cmd = ["java", "-XX:+UseParallelGC"] + (jvm or ["-Xmx8g", "-Xss1g"]) + ["-cp", f"{TLC_JAR}:{CM_JAR}", "tlc2.TLC",
+    cmd = ["java", "-XX:+UseParallelGC", "-Dfile.encoding=UTF-8", "-Dstdout.encoding=UTF-8"] + (jvm or ["-Xmx8g", "-Xss1g"]) + ["-cp", f"{TLC_JAR}:{CM_JAR}", "tlc2.TLC",
            "-workers", str(workers), "-metadir", meta, "-cleanup", "-noGenerateSpecTE",
            "-seed", str(SEED), "-config", cfg]
     if coverage:
